@@ -6,4 +6,5 @@ Extraction Language OCaml.
 Extraction "c05_model.ml"
   c05_contains c05_iface_eqb c05_sort c05_remote_of c05_interface_build c05_selection c05_getsize c05_comm_build
   c05_gather c05_gather_log c05_sends c05_recvs c05_phase c05_order_asc c05_order_desc c05_dt_build c05_dt_phase c05_dt_recv c05_dt_pack c05_dt_forward_requests c05_dt_backward_requests c05_iobj_run c05_bobj_run
+  c05_icobj_run c05_bcobj_run c05_dcobj_run c05_comm_eqb c05_phase_objs c05_phase_on c05_dt_phase_on
   c05_spec_interface c05_spec_scatter_fwd c05_spec_scatter_bwd c05_spec_final.
